@@ -36,6 +36,15 @@ def exprs_for(tier, seed):
     ng = lambda a: J.Un("Negation", a)
     ts += [J.Mul(ng(gen.X), ng(gen.Y), ng(W)), J.Mul(ng(gen.X), ng(gen.Y), ng(W), gen.Y), J.Mul(ng(gen.X), ng(gen.Y), ng(gen.X), ng(gen.Y)),
            J.Mul(ng(J.Un("Sine", gen.X)), ng(gen.Y), ng(J.BUn("Exponential", gen.X, gen.q(2))), gen.Y), J.Mul(ng(gen.X), ng(gen.X), ng(gen.X))]
+    # a variable occurring three or more times, the first occurrences with variable-free multipliers (reverse-route accumulator)
+    ts += [J.Add(J.Mul(gen.C[2], gen.X), J.Mul(gen.C[3], gen.X), J.Mul(gen.X, gen.Y)), J.Add(gen.X, gen.X, J.Mul(gen.X, gen.Y), gen.Y),
+           J.Add(J.Mul(gen.C[2], gen.X), gen.X, J.Mul(J.Un("Sine", gen.Y), gen.X), J.Mul(gen.X, gen.X)), J.Bin("Minus", J.Add(gen.X, gen.X), J.Mul(gen.Y, gen.X)),
+           J.Add(gen.X, J.Mul(gen.C[3], gen.X), J.Bin("Divide", gen.X, gen.Y), J.KUn("NthPower", gen.X, 2))]
+    # constant bases that are not positive; division by constant zero in its three guises; bases below one (also through Power => Exponential)
+    ts += [J.Bin("Power", J.Const(0), gen.Y), J.Bin("Power", J.Const(-2), gen.Y), J.Mul(J.Bin("Power", J.Const(0), gen.Y), gen.X), J.Bin("Power", J.Const(1, 2), gen.X),
+           J.Mul(gen.Y, J.BUn("Exponential", J.Mul(gen.X, gen.Y), gen.q(1, 4))), J.Bin("Power", J.Const(1, 4), J.Mul(gen.X, gen.Y)),
+           J.Bin("Divide", gen.X, J.Const(0)), J.Bin("Divide", gen.X, J.Bin("Minus", J.Const(3), J.Const(3))), J.Mul(gen.X, J.Un("Reciprocal", J.Const(0))),
+           J.Mul(gen.X, J.BUn("Logarithm", J.Const(0), gen.E_)), J.Bin("Power", J.KUn("NthPower", gen.X, 2), J.Const(5, 2)), J.Bin("Power", J.KUn("NthPower", gen.X, 2), gen.Y)]
     # non-integral constant exponents
     for cexp in ((5, 2), (7, 2), (3, 2), (1, 2), (-1, 2), (5, 1)):
         ts += [J.Bin("Power", gen.X, J.Const(*cexp)), J.Mul(J.Bin("Power", gen.X, J.Const(*cexp)), gen.Y), J.BUn("Exponential", J.Bin("Power", gen.X, J.Const(*cexp)), gen.E_)]
